@@ -83,7 +83,11 @@ TRet == /\ IsEvent("ret") /\ cur[E.th] > 0
         /\ UNCHANGED <<holder, rb, rub>>
 TSRet == IsEvent("sret") /\ ResultCorrect(E.m, E) /\ UNCHANGED <<holder, cur, rb, rub>>
 
-TraceNext == TCall \/ TAcq \/ TRel \/ TAcc \/ TRet \/ TSRet
+\* dec {th, out, exp}: a whole decrypt() call returned; decrypt is a FUNCTION of (key, ciphertext) - also for invalid
+\* padding, where the result is the implicit-rejection message - so every call returns what a lone caller gets (exp)
+TDec == IsEvent("dec") /\ E.out = E.exp /\ UNCHANGED <<holder, cur, rb, rub>>
+
+TraceNext == TCall \/ TAcq \/ TRel \/ TAcc \/ TRet \/ TSRet \/ TDec
 
 Mark == IF l - 1 > TLCGet(tid) THEN TLCSet(tid, l - 1) ELSE TRUE
 ASSUME \A i \in 1..NT : TLCSet(i, 0)
